@@ -4,6 +4,7 @@ import (
 	"fmt"
 	"reflect"
 	"runtime"
+	"strings"
 	"sync"
 	"testing"
 
@@ -86,14 +87,20 @@ func TestVerifC05Concurrent(t *testing.T) {
 					calls[i][w] = call{vec: []float32{float32(w + 1), float32(i), r.F32()}, who: fmt.Sprintf("w%d", w), kind: k}
 				}
 			}
-			// racing creations of one index name with different configurations
-			createOK := make([]bool, writers)
+			// racing creations of the same index names with different configurations
+			const nRaced = 12
+			createOK := make([][]bool, nRaced)
+			for j := range createOK {
+				createOK[j] = make([]bool, writers)
+			}
 			for w := 0; w < writers; w++ {
 				wg.Add(1)
 				go func(w int) {
 					defer wg.Done()
 					<-start
-					createOK[w] = e.VCreate("raced", distance.Euclidean, 4+w, 8, distance.Float32, "", nil, nil, nil) == nil
+					for j := 0; j < nRaced; j++ {
+						createOK[j][w] = e.VCreate(fmt.Sprintf("raced%d", j), distance.Euclidean, 4+w, 8, distance.Float32, "", nil, nil, nil) == nil
+					}
 				}(w)
 			}
 			close(start)
@@ -122,10 +129,14 @@ func TestVerifC05Concurrent(t *testing.T) {
 						}
 					}
 				}
-				info, err := en.DB.GetSingleVectorIndexInfoAPI("raced")
-				m := "absent"
-				if err == nil {
-					m = fmt.Sprint(info.M)
+				m := ""
+				for j := 0; j < nRaced; j++ {
+					info, err := en.DB.GetSingleVectorIndexInfoAPI(fmt.Sprintf("raced%d", j))
+					if err == nil {
+						m += fmt.Sprint(info.M) + ","
+					} else {
+						m += "absent,"
+					}
 				}
 				return out, m
 			}
@@ -165,17 +176,20 @@ func TestVerifC05Concurrent(t *testing.T) {
 					contended++
 				}
 			}
-			nCreate := 0
-			for w, ok := range createOK {
-				if ok {
-					nCreate++
-					if mBefore != fmt.Sprint(4+w) {
-						cs.Fail("VCreate(raced, M=%d) was acknowledged but the index has M=%s", 4+w, mBefore)
+			ms := strings.Split(mBefore, ",")
+			for j := 0; j < nRaced; j++ {
+				nCreate := 0
+				for w, ok := range createOK[j] {
+					if ok {
+						nCreate++
+						if ms[j] != fmt.Sprint(4+w) {
+							cs.Fail("VCreate(raced%d, M=%d) was acknowledged but the index has M=%s", j, 4+w, ms[j])
+						}
 					}
 				}
-			}
-			if nCreate != 1 {
-				cs.Fail("%d of %d concurrent creations of one index name were acknowledged", nCreate, writers)
+				if nCreate != 1 {
+					cs.Fail("%d of %d concurrent creations of index name raced%d were acknowledged", nCreate, writers, j)
+				}
 			}
 			if err := e.Close(); err != nil {
 				cs.Fail("Close: %v", err)
@@ -191,7 +205,7 @@ func TestVerifC05Concurrent(t *testing.T) {
 						cs.Fail("a rejected concurrent call took effect after the restart: %s was %s, is %s", k, v, after[k])
 					}
 				}
-				cs.Fail("index 'raced' had M=%s before the restart and M=%s after it", mBefore, mAfter)
+				cs.Fail("the raced indexes had M=%s before the restart and M=%s after it (a rejected creation took effect)", mBefore, mAfter)
 			}
 			ctx.Count("contended_ids", int64(contended))
 			ctx.Count("rejected_concurrent_calls", int64(nIDs*(writers-1)))
